@@ -34,5 +34,8 @@ run C11 cubed/core/ops.py 'sl.stop % cs != 0 and sl.stop != shape\[i\]' 'sl.stop
 run C17 cubed/array_api/linalg.py 'if any\(c < x.shape\[1\] for c in x.chunks\[0\]\):' 'if False:' --only tsqr
 run C19 cubed/core/ops.py 'spec0 = specs\[0\] if len\(specs\) > 0 else spec' 'spec0 = getattr(args[0], "spec", spec) if len(args) > 0 else spec' --only map_blocks
 run C18 cubed/spec.py 'and self.allowed_mem == other.allowed_mem' 'and True' --only 'Spec.__eq__'
+run C01 cubed/array_api/manipulation_functions.py 'start, stop = axis_len - stop, axis_len - start' 'start, stop = start, stop' --only ':flip'
+run C01 cubed/array_api/manipulation_functions.py 'bd if old > 1 else chunklen\(new\)' 'bd if old >= 1 else chunklen(new)' --only broadcast_to
+run C20 cubed/core/plan.py '    # args from primitive_op onwards are omitted' '    def __eq__(self, other):\n        return isinstance(other, Plan) and set(self.dag) == set(other.dag)\n\n    def __hash__(self):\n        return hash(self.array_names)\n\n    # args from primitive_op onwards are omitted' --only per-plan
 echo "selected=$n"
 exit $fail
